@@ -222,6 +222,7 @@ func VH08d_stalled() {
 	ps[stalled].SendMode = vt.SendBlock
 	K := verif.Param("K", 4)
 	var bodies [][]byte
+	var held []*mangos.Message
 	for k := 0; k < K; k++ {
 		b := []byte{byte('a' + k), verif.Byte("payload")}
 		bodies = append(bodies, b)
@@ -244,6 +245,19 @@ func VH08d_stalled() {
 			verif.Assert(sock.SendMsg(m) == nil, lab+"/forward")
 			verif.Quiesce()
 		}
+		if proto != "xbus" {
+			// STAR also hands every message to the local application: it keeps them all until the end
+			var m *mangos.Message
+			var err error
+			g := verif.Go("recv-local", func() { m, err = sock.RecvMsg() })
+			verif.Quiesce()
+			verif.Assert(g.Done() && err == nil, lab+"/local-application-missed-a-message")
+			if g.Done() && err == nil {
+				verif.Owned(m)
+				verif.Assert(len(m.Body) == 2 && verif.BytesEq(m.Body, b), lab+"/local-copy-garbled")
+				held = append(held, m)
+			}
+		}
 		got := ps[healthy].Sent
 		verif.Assert(len(got) == k+1, lab+"/healthy-peer-missed-a-forwarded-message")
 		if len(got) == k+1 {
@@ -252,6 +266,9 @@ func VH08d_stalled() {
 		}
 	}
 	verif.Assert(len(ps[0].Sent) == 0, lab+"/echoed-to-the-source")
+	for i, m := range held {
+		verif.Assert(len(m.Body) == 2 && verif.BytesEq(m.Body, bodies[i]), lab+"/application-owned-message-changed")
+	}
 	verif.Reach("stalled-checked")
 	sock.Close()
 }
